@@ -189,6 +189,7 @@ func runC07(line string) string {
 			// a request whose reply is lost: the node executes it and drops the connection instead of answering
 			pos := 0
 			v := wvOfTokens(fs[1:], &pos)
+			beforeQx := sp.counter("upstream.slots_refresh.success_total")
 			cl.mu.Lock()
 			for _, nd := range cl.nodes {
 				nd.log = nil
@@ -215,6 +216,7 @@ func runC07(line string) string {
 				outs = append(outs, fmt.Sprintf("answered:%s:%d", r.String(), ex))
 			case ex == 0:
 				outs = append(outs, "err")
+				waitRefresh(beforeQx) // it did not reach a node (unreachable): the refresh this triggers, as after any failed request
 			default:
 				outs = append(outs, fmt.Sprintf("lost:%d", ex))
 			}
